@@ -38,8 +38,8 @@ def run_property(pid: str, tier: str, repo_root: str, write_evidence=True, quiet
             ctx.error(str(e))
         except Exception as e:  # analyser crash: never a silent pass, never a violation
             ctx.error(f"analyser crashed: {type(e).__name__}: {e}\n{traceback.format_exc()}")
-        for structural, semantic in getattr(mod, "DEFER", []):
-            ctx.defer(structural, semantic)
+        for entry in getattr(mod, "DEFER", []):
+            ctx.defer(*entry)  # (structural, semantic[, only-instances-whose-site-contains])
         code = finish(ctx, t0, cmd, mod.EXPLANATION, mod.ASSUMPTIONS, write_evidence=write_evidence, quiet=quiet)
         return code, ctx
     except AnalysisError as e:
